@@ -6,7 +6,7 @@ STYLES = None
 SUITES = [Suite("prio2-det", prio.prio_generate(0.0, STYLES), prio.prio_project("C07"), prio.monitor_prio("C07"),
                 rule=prio.PRIO_RULE, version="v2", impl_ints=False, batch_timeout=600, shrink=prio.shrink_prio2)]
 
-SUITES.append(Suite("prio1-det", prio.prio1_generate(0.0, 0.0), prio.prio1_project("C07"), prio.monitor_prio1("C07"),
+SUITES.append(Suite("prio1-det", prio.prio1_generate_with_witness(prio.d4_graceful_witness), prio.prio1_project("C07"), prio.monitor_prio1("C07"),
                     rule=prio.PRIO1_RULE, version="v1", impl_ints=False, batch_timeout=300, shrink=prio.shrink_prio1))
 
 SUITES.append(Suite("simple2", prio.simple2_generate(), prio.simple2_project, prio.monitor_simple2("C07"),
